@@ -39,6 +39,19 @@ impl log::Log for SinkLogger {
 }
 static SINK: SinkLogger = SinkLogger;
 
+/// The level is part of the scenario space: a log argument with a side effect behaves differently at `trace` than at
+/// the binary's default `info` (or with logging off). Chosen per run from the run index: 1/2 trace, 1/4 info, 1/8 error,
+/// 1/8 off - replays use the recorded index, so a run is repeated at the level it had.
+pub fn set_log_level_for_run(index: u64) {
+    let h = index.wrapping_mul(0x9e37_79b9_7f4a_7c15) >> 61;
+    log::set_max_level(match h {
+        0..=3 => log::LevelFilter::Trace,
+        4 | 5 => log::LevelFilter::Info,
+        6 => log::LevelFilter::Error,
+        _ => log::LevelFilter::Off,
+    });
+}
+
 pub fn install_panic_hook() {
     if log::set_logger(&SINK).is_ok() {
         log::set_max_level(log::LevelFilter::Trace);
